@@ -260,9 +260,13 @@ func TestVerifC18Hist(t *testing.T) {
 	cfgs := c18HistConfigs(env)
 	for ci, hc := range cfgs {
 		hc := hc
-		// cumulative deadline per configuration, so that a slow machine caps every part a little instead of
-		// starving the last ones
-		env.Budget = time.Duration(int64(total) * int64(ci+1) / int64(len(cfgs)))
+		// every configuration gets an equal share of the remaining budget (a slow machine caps every part a little
+		// instead of starving the last ones)
+		now := env.Elapsed()
+		env.Budget = now
+		if total > now {
+			env.Budget = now + (total-now)/time.Duration(len(cfgs)-ci)
+		}
 		res := mc.NewResult("C18", hc.name, "bfs")
 		res.Rule = fmt.Sprintf("BFS over all sequences of Balance rounds on one plugin instance; a round is a full 3-node snapshot, alphabet = %d snapshots (per node: L 10%%, M 50%%, H 90%%, P 50%% with prod share 40%%, X no NodeMetric); config {%s}, every Evict fails: %v; states deduplicated by detector states/counters + reference streak counters; the last round of each history is judged call by call", len(hc.ops), hc.cfg.String(), hc.failAll)
 		res.Assumptions = append(append([]string{}, c18Assumptions...),
